@@ -173,6 +173,22 @@ func c10RawContext(lit string) escCase {
 	panic("no raw context")
 }
 
+// c10OtherLiteral is a literal of exactly the same source length as lit (same
+// quotes) whose content is only the letter z; c10SameLengthOther is what it renders to.
+func c10OtherLiteral(lit string) string {
+	if len(lit) < 2 {
+		return lit
+	}
+	return lit[:1] + strings.Repeat("z", len(lit)-2) + lit[len(lit)-1:]
+}
+
+func c10SameLengthOther(lit string) string {
+	if len(lit) < 2 {
+		return ""
+	}
+	return strings.Repeat("z", len(lit)-2)
+}
+
 func c10TreeContexts(lit string) []escCase {
 	// every string-API context also as a page of a loaded template (parsed once, rendered twice)
 	var paged []escCase
@@ -188,6 +204,12 @@ func c10TreeContexts(lit string) []escCase {
 		{Context: "component-argument", Pre: "<c>", Post: "</c>;", Tree: map[string]string{"comp": "<c>{{ x }}</c>", "page": "@component(\"comp\", {x: " + lit + "});"}},
 		{Context: "slot-body", Pre: "<c>[", Post: "]</c>;", Tree: map[string]string{"comp": "<c>@slot</c>", "page": "@component(\"comp\")\n@slot[{{ " + lit + " }}]@end\n@end;"}},
 		{Context: "component-argument-raw", Raw: true, Pre: "<c>", Post: "</c>;", Tree: map[string]string{"comp": "<c>{{ x.raw() }}</c>", "page": "@component(\"comp\", {x: " + lit + "});"}},
+		// two files of the same shape: the literal of the second stands at the same line
+		// and columns as another literal (of the same length) in the first
+		{Context: "same-position-in-two-components", Pre: "<a>[" + c10SameLengthOther(lit) + "]</a>;<b>[", Post: "]</b>;", Tree: map[string]string{
+			"ca": "<a>[{{ " + c10OtherLiteral(lit) + " }}]</a>", "cb": "<b>[{{ " + lit + " }}]</b>", "page": "@component(\"ca\");@component(\"cb\");"}},
+		{Context: "same-position-in-page-and-layout", Pre: "<L>[" + c10SameLengthOther(lit) + "][", Post: "]</L>", Tree: map[string]string{
+			"layouts/l": "<L>[{{ " + c10OtherLiteral(lit) + " }}]@reserve(\"r\")</L>", "page": "@use(\"~l\")@insert(\"r\")[{{ " + lit + " }}]@end"}},
 		{Context: "literal-in-layout", Pre: "<t>[", Post: "]x</t>", Tree: map[string]string{"layouts/l": "<t>[{{ " + lit + " }}]@reserve(\"r\")</t>", "page": "@use(\"~l\")@insert(\"r\", \"x\")"}},
 		{Context: "literal-in-component-file", Pre: "<c>[", Post: "]</c>;", Tree: map[string]string{"comp": "<c>[{{ " + lit + " }}]</c>", "page": "@component(\"comp\");"}},
 	}...)
